@@ -1283,4 +1283,81 @@ theorem instantiatingModuleAt_eq_none_iff (reg : Registry) (f : Forest) (loc : L
       · exact absurd ⟨m0, hm0, hns0⟩ h
       · exact absurd ((hall m hm hns).trans (hall m' hm' hns').symm) hne
 
+/-! ### `merge` without a namespace keeps trees stamp-free -/
+
+theorem foldl_mstep_mem (ns : Option String) (pos : Stmt) (l : List Entry) (e : Entry) :
+    ∀ x ∈ (l.foldl (mstep ns pos) e).dir, x ∈ e.dir ∨ ∃ v ∈ l, x = stamp ns v := by
+  induction l generalizing e with
+  | nil => intro x hx; exact Or.inl hx
+  | cons v l ih =>
+    intro x hx
+    rw [List.foldl_cons] at hx
+    rcases ih _ x hx with h | ⟨w, hw, rfl⟩
+    · unfold mstep at h
+      split at h
+      · rw [addErr_dir] at h; exact Or.inl h
+      · rw [withDir_dir, List.mem_append, List.mem_singleton] at h
+        rcases h with h | h
+        · exact Or.inl h
+        · exact Or.inr ⟨v, by simp, h⟩
+    · exact Or.inr ⟨w, List.mem_cons_of_mem _ hw, rfl⟩
+
+theorem merge_mem (e : Entry) (ns : Option String) (oe : Entry) :
+    ∀ x ∈ (e.merge ns oe).dir, x ∈ e.dir ∨ ∃ v ∈ oe.dir, x = stamp ns v := by
+  rw [merge_eq]
+  intro x hx
+  rcases foldl_mstep_mem ns oe.d.node oe.dir _ x hx with h | h
+  · rw [importErrors_dir] at h; exact Or.inl h
+  · exact Or.inr h
+
+/-- uses / include: merging stamp-free content into a stamp-free node leaves it stamp-free. -/
+theorem noStampBelow_merge_none (e oe : Entry) (he : noStampBelow e = true) (ho : noStampL oe.dir = true) :
+    noStampBelow (e.merge none oe) = true := by
+  unfold noStampBelow at he ⊢
+  simp only [Bool.and_eq_true] at he ⊢
+  obtain ⟨_, hi, hout⟩ := merge_keep e none oe
+  rw [hi, hout]
+  refine ⟨⟨?_, he.1.2⟩, he.2⟩
+  rw [noStampL_iff]
+  intro x hx
+  rcases merge_mem e none oe x hx with h | ⟨v, hv, hxe⟩
+  · exact (noStampL_iff _).mp he.1.1 x h
+  · rw [hxe, stamp_none]; exact (noStampL_iff _).mp ho v hv
+
+/-! ### the augment step of `Process` is the `graft` constructor -/
+
+/-- One successful augment of tree `id` (the only pending one, to keep the loop out of the
+statement): the resulting forest is the target's tree with the augment's entry merged at the target
+under the namespace that the root of tree `id` reports. -/
+theorem augmentStep_eq (reg : Registry) (id : Nat) (addErrors : Bool) (s : PState) (a : Entry)
+    (t : Nat) (path : Path) (f1 : Forest) (root te : Entry)
+    (hp : s.pendingOf id = [a])
+    (hfind : find reg s.forest (id, []) a.d.nodeMod a.d.name = (some (t, path), f1))
+    (hroot : f1.tree? t = some root) (hte : root.getAt path = some te) (hok : cannotHaveChildren te = false) :
+    (augmentTree reg id addErrors s).1.forest =
+      f1.setTree t (root.updateAt path fun te => te.merge (some (namespaceAt reg s.forest (id, []))) a) := by
+  unfold augmentTree
+  simp only [hp, List.foldl_cons, List.foldl_nil, hfind, hroot, hte, Option.bind_some, hok]
+  rfl
+
+/-- … and therefore a `Built` forest stays `Built`, the new nodes being placed by module `id`
+(when `Find` did not have to create an absent rpc input/output on the way). -/
+theorem augmentStep_built (reg : Registry) (id : Nat) (addErrors : Bool) (s : PState) (a : Entry)
+    (t : Nat) (path : Path) (root te r0 : Entry) (prov : Loc → Option Nat)
+    (hb : Built reg s.forest prov)
+    (hid : s.forest.tree? id = some r0)
+    (hp : s.pendingOf id = [a]) (ha : noStampL a.dir = true)
+    (hfind : find reg s.forest (id, []) a.d.nodeMod a.d.name = (some (t, path), s.forest))
+    (hroot : s.forest.tree? t = some root) (hte : root.getAt path = some te) (hok : cannotHaveChildren te = false) :
+    ∃ prov', Built reg (augmentTree reg id addErrors s).1.forest prov' ∧
+      (∀ loc, NewBelow t path te a loc → prov' loc = some id) ∧
+      (∀ loc, ¬ NewBelow t path te a loc → prov' loc = prov loc) := by
+  classical
+  rw [augmentStep_eq reg id addErrors s a t path s.forest root te hp hfind hroot hte hok,
+    namespaceAt_root reg s.forest id r0 hid]
+  refine ⟨fun loc => if NewBelow t path te a loc then some id else prov loc, ?_, ?_, ?_⟩
+  · exact Built.graft hb hroot hte ha (fun loc h => by simp only [h, if_true]) (fun loc h => by simp only [h, if_false])
+  · intro loc h; simp only [h, if_true]
+  · intro loc h; simp only [h, if_false]
+
 end Goyang.Lemmas.ConfigNs
